@@ -90,6 +90,15 @@ def cli_signature(pid, what, source, sc, events):
                                "other:" + f for f in extra))
             return "%s|%s|globs=%s;flags=%s;extra=%s" % (source, what, meta["sc"].get("globset"),
                                                           "+".join(k for k in ("respect", "allow_hidden") if meta["sc"].get(k)) or "none", ",".join(kinds))
+        if what == "unselected_processed" and any(p_["neg"] for p_ in meta["sc"]["ig_root"] + meta["sc"]["ig_src"]):
+            # a negated pattern in .styluaignore (`!*.lua`) re-includes hidden files as well: in the walker a
+            # re-including match is final and the hidden-file filter is not consulted for that path
+            fin = next((e for e in events if e.get("ev") == "Final"), {})
+            proc = set(o["path"] for o in fin.get("files", []) if o.get("tag") == "cand" and not o.get("same_bytes", True))
+            extra = proc - set(meta.get("selected", [])) - set(meta.get("maybe", []))
+            if extra and all(any(c.startswith(".") and c not in (".", "..") for c in f.split("/")) for f in extra):
+                return "%s|%s|negated-ignore-pattern;extra=hidden;flags=%s" % (
+                    source, what, "+".join(k for k in ("respect", "allow_hidden") if meta["sc"].get(k)) or "none")
         if meta["sc"].get("respect") and any(a["kind"] == "file" for a in meta["sc"]["args"]):
             # one class: explicit paths with --respect-ignores consult only the ignore file of their own directory, else the cwd's
             return "%s|%s|%s;explicit-file-with-respect-ignores" % (source, what, meta["sig"])
